@@ -74,7 +74,8 @@ func floatVal(f float64, f32 bool) value {
 	if f32 {
 		f = float64(float32(f))
 	}
-	return value{Lit: strconv.FormatFloat(f, 'g', -1, 64), F: f, Text: strconv.FormatFloat(f, 'g', -1, 64)}
+	// 'e' notation makes the literal a floating-point literal (a plain "1.5" would be an exact decimal literal)
+	return value{Lit: strconv.FormatFloat(f, 'e', -1, 64), F: f, Text: strconv.FormatFloat(f, 'g', -1, 64)}
 }
 
 func dateVal(s string) value { return value{Lit: "'" + s + "'", Text: s, K: s + " 00:00:00.000000"} }
@@ -566,6 +567,11 @@ func (s *schemaSpec) mutate(r *rand.Rand, ti int) []string {
 				nr[ci] = nullValue
 			} else {
 				nr[ci] = s.sub[ti][ci][r.Intn(len(s.sub[ti][ci]))]
+			}
+			if t.Cols[ci].ci() && !row[ci].Null && !nr[ci].Null && row[ci].K == nr[ci].K && row[ci].Text != nr[ci].Text {
+				// an UPDATE to a collation-equal but different string: go-mysql-server treats the row as unchanged
+				// (every engine voice shares that UPDATE code); not a read-query matter, so not generated
+				break
 			}
 			stmts = append(stmts, fmt.Sprintf("update {T} set %s = %s where id = %s", t.Cols[ci].Name, nr[ci].Lit, row[0].Lit))
 			row = nr
